@@ -41,7 +41,8 @@ RULE = (
     "TSIG, with and without an origin (incl. the root); direct dns.renderer.Renderer scripts with a tight max_size in which the "
     "caller catches TooBig and keeps adding rrsets whose owner / NS / MX / SOA names end in or equal the rolled-back owner (through add_rrset or "
     "add_rdataset, add_question with and without its class, the constructor with positional/keyword/default arguments, add_edns, a relative owner "
-    "without origin); hand-encoded UPDATE wires around the zone-section rules and delete forms in every section; plus a mutated-wire stream (count/rdlen/ttl/pointer/class edits, "
+    "without origin); hand-encoded UPDATE wires around the zone-section rules and delete forms in every section; UPDATE messages assembled from RRset "
+    "objects (empty rrsets from from_text / clear() with TTL in {0, 1, 3600, 2^31-1}, class ANY / NONE / zone class, parser's and API's representation); plus a mutated-wire stream (count/rdlen/ttl/pointer/class edits, "
     "truncation, trailing junk) and header-field pools; a case is non-trivial if its key (kind + content) is new"
 )
 TRUSTED_BASE = [
@@ -721,7 +722,22 @@ def eval_msg(ctx: Ctx, c: dict):
     hdr = struct.unpack("!HHHH", w[4:12])
     if hdr != cnt:
         fail(ctx, "C03/to_wire/counts", f"header counts {hdr} vs section_count {cnt}", c)
+    if any(not r["rdatas"] for sx in (1, 2, 3) for r in c["sections"][sx]):
+        # RFC 2136 §2.4 / §2.5: the class/type-only records (RDLENGTH 0) carry TTL 0, whatever TTL the empty rrset object holds
+        try:
+            got = [g for g in walk_message(w)["recs"] if not (g["sec"] == 3 and g["rdtype"] in (41, 250))]
+            exp, _ = expected_records(c)
+            if len(got) == len(exp):
+                for g, e in zip(got, exp):
+                    if e["sec"] > 0 and e["rd"] is None and (g["rdlen"] != 0 or g["ttl"] != 0):
+                        fail(ctx, "C03/to_wire/empty-rrset-ttl", f"the class/type-only record of an empty rrset at {g['pos']} (type {g['rdtype']}, class {g['rdclass']}) "
+                             f"carries TTL {g['ttl']} and RDLENGTH {g['rdlen']}, not 0 / 0", c)
+                        break
+        except WalkError:
+            pass
     check_api_routes(ctx, c, m, key, origin, ms, w)
+    if c.get("render_only"):
+        return  # forms the reader is entitled to refuse (an RDLENGTH-0 record of a data class): rendering clauses only
     # ---- parse
     for orr in ([False, True] if c.get("also_orr") else [False]):
         pl, m2 = parse(w, origin=origin, orr=orr, key=key)
@@ -1312,6 +1328,66 @@ def gen_update(rng):
     return c
 
 
+EMPTY_TTLS = [0, 1, 3600, 2 ** 31 - 1]
+
+
+def gen_update_objects(rng):
+    """an UPDATE message assembled by hand from RRset objects instead of through the UpdateMessage helpers (which always
+    give TTL 0): empty rrsets made with from_text(name, ttl, class, type) or by clear()ing a filled one, with any TTL, in
+    the prerequisite and update sections, in the parser's representation (zone class + deleting) or the API's (class
+    ANY/NONE); RFC 2136 §2.4/2.5: the TTL of every RDLENGTH-0 record on the wire is 0"""
+    zc = rng.choice([1, 1, 3, 4])
+    zone = dns.name.Name([rng.choice([b"example", b"zone", b"EX"]), b""])
+    use_origin = rng.chance(1, 3)
+    u = dns.update.UpdateMessage(zone, rdclass=zc, id=rng.below(65536))
+    u.origin = zone if use_origin else None
+    if not use_origin:
+        u.sections[0][0].name = zone
+    else:
+        u.sections[0][0].name = dns.name.empty
+
+    def nm(i):
+        l = [rng.choice([b"a", b"host", b"WWW", b"x" * 20]) + b"%d" % i]
+        return dns.name.Name(l) if use_origin else dns.name.Name(l + list(zone.labels))
+
+    render_only = False
+    k = 0
+    for sec in (1, 2):
+        for _ in range(1 + rng.below(4)):
+            k += 1
+            ttl = rng.choice(EMPTY_TTLS)
+            rdtype = rng.choice([65280, 65281, 255 if sec == 2 or rng.chance(1, 2) else 65280])
+            form = rng.below(6)
+            if form == 0:        # ordinary record (add / prerequisite with value)
+                rr = dns.rrset.RRset(nm(k), zc, 65280 + rng.below(2))
+                rr.update_ttl(0 if sec == 1 else rng.choice([0, 300]))
+                rr.add(dns.rdata.from_wire(zc, rr.rdtype, rng.bytes(4), 0, 4))
+            elif form == 1:      # parser's representation: (zone class, deleting=ANY), empty, any TTL
+                rr = dns.rrset.RRset(nm(k), zc, rdtype, 0, 255)
+                rr.update_ttl(ttl)
+            elif form == 2:      # API's representation: class ANY itself, made by from_text with a TTL and no rdatas
+                rr = dns.rrset.from_text(nm(k), ttl, "ANY", dns.rdatatype.to_text(rdtype) if rdtype == 255 else f"TYPE{rdtype}")
+            elif form == 3:      # a filled rrset that was clear()ed: the TTL stays
+                rr = dns.rrset.RRset(nm(k), zc, 65280, 0, 255)
+                rr.update_ttl(ttl)
+                rr.add(dns.rdata.from_wire(zc, 65280, rng.bytes(3), 0, 3))
+                rr.clear()
+            elif form == 4:      # class NONE, empty: "rrset does not exist" in the prerequisite section
+                rr = dns.rrset.RRset(nm(k), zc, 65280, 0, 254)
+                rr.update_ttl(ttl)
+                if sec == 2:
+                    render_only = True   # an RDLENGTH-0 delete-RR: the reader parses the (empty) RDATA
+            else:                # an empty rrset of the zone's own class (no RFC 2136 meaning): rendering clauses only
+                rr = dns.rrset.RRset(nm(k), zc, 65281)
+                rr.update_ttl(ttl)
+                render_only = True
+            u.sections[sec].append(rr)
+    c = case_of_message(u, kind="msg", max_size=65535)
+    if render_only:
+        c["render_only"] = True
+    return c
+
+
 def normalise(c):
     """rebuild through the library's own constructors (Set semantics, singleton types) and read the case back"""
     m, _ = mk_message(c)
@@ -1642,6 +1718,15 @@ def generate(ctx: Ctx, scale: int, rng):
     for i in range(n(6)):
         for variant in range(16):
             run_one(ctx, gen_rollback(rng, variant))
+    # UPDATE messages assembled from RRset objects: empty rrsets with arbitrary TTLs
+    for i in range(n(120)):
+        try:
+            c = gen_update_objects(rng)
+        except Exception:
+            ctx.count("gen.rejected")
+            continue
+        run_one(ctx, c)
+        ctx.count("update-objects")
     for i in range(n(260)):
         try:
             c = gen_update(rng)
